@@ -194,6 +194,31 @@ func (v Byte) Encode(enc *atree.Encoder) error {
 	return enc.CBOR.EncodeUint8(uint8(v))
 }
 
+// ByteW is a second byte type whose CBOR tag number needs a 2-byte argument (tag 300: 3-byte tag head), so that
+// nothing in the conversion API can get away with assuming the size of a byte storable.
+type ByteW byte
+
+const tagByteW = 300
+
+var _ atree.Value = ByteW(0)
+var _ atree.Storable = ByteW(0)
+
+func (v ByteW) Storable(atree.SlabStorage, atree.Address, uint32) (atree.Storable, error) {
+	return v, nil
+}
+func (v ByteW) StoredValue(atree.SlabStorage) (atree.Value, error) { return v, nil }
+func (v ByteW) ChildStorables() []atree.Storable                   { return nil }
+func (v ByteW) CanCopyNonRefSimple() bool                          { return true }
+func (v ByteW) CopyNonRefSimple() (atree.Storable, error)          { return v, nil }
+func (v ByteW) ByteSize() uint32                                   { return 3 + uintSize(uint64(v)) }
+func (v ByteW) String() string                                     { return fmt.Sprintf("bw%d", byte(v)) }
+func (v ByteW) Encode(enc *atree.Encoder) error {
+	if err := enc.CBOR.EncodeRawBytes([]byte{0xd9, tagByteW >> 8, tagByteW & 0xff}); err != nil {
+		return err
+	}
+	return enc.CBOR.EncodeUint8(uint8(v))
+}
+
 // ---------------------------------------------------------------- Str
 
 type Str struct{ S string }
@@ -434,6 +459,15 @@ func decodeStorable(dec *cbor.StreamDecoder, id atree.SlabID, ied []atree.ExtraD
 				return nil, fmt.Errorf("byte out of range %d", n)
 			}
 			return Byte(n), nil
+		case tagByteW:
+			n, err := dec.DecodeUint64()
+			if err != nil {
+				return nil, err
+			}
+			if n > math.MaxUint8 {
+				return nil, fmt.Errorf("byte out of range %d", n)
+			}
+			return ByteW(n), nil
 		case tagSome:
 			s, err := decodeStorable(dec, id, ied, depth+1)
 			if err != nil {
